@@ -227,6 +227,7 @@ func VerifH_prefix_step() {
 	r, stop := w.h.Handle(req, resp)
 	vnd.Unshare()
 
+	vnd.Assert(r != nil || stop, "C13 a built-in handler returns a nil response only together with stop")
 	vnd.Assert(vnd.HeldLocks() == 0, "C16 prefix plugin lock released")
 	vnd.Assert(r == dhcpv6.DHCPv6(resp) && !stop, "C08 request with a client id is answered and passed on")
 	out := resp.Options.IAPD()
